@@ -48,6 +48,24 @@ Theorem C03_applied_at_most_once : forall ctmo parts0 es,
   NoDup (applied (grun (start ctmo parts0) es)).
 Proof. exact applied_once. Qed.
 
+(* "the decision never changes afterwards", recovery included: a transaction that coordinator.recover() moved to
+   Committing carries the decision commit; with C03_one_decision no later abort(), cleanup_timeouts, recover() or
+   complete_abort turns it into an abort. *)
+Theorem C03_committing_is_decided : forall ctmo parts0 es tx t,
+  let g := grun (start ctmo parts0) es in In (tx, t) (committing (co g)) -> In (tx, true) (dec g).
+Proof. exact committing_is_decided. Qed.
+
+(* C03_no_split speaks of transactions discarded on an abort MESSAGE.  Participant housekeeping (cleanup_stale /
+   recover) drops a prepared transaction on the participant's own authority, so "every participant that voted Yes
+   for a committed transaction applies it once all messages are delivered" is FALSE of the faithful model (known
+   finding F-C03-presumed-abort; the witness is replayed on the implementation by the harness corpus): both shards
+   vote Yes, cleanup_stale(0) on shard 1, commit, shard 0 applies, shard 1 answers the Commit with not-found. *)
+Theorem C03_yes_voter_applies_refuted :
+  exists ctmo parts0 es tx sh sh',
+    let g := grun (start ctmo parts0) es in
+    In (tx, true) (dec g) /\ In (tx, sh) (applied g) /\ In (tx, sh') (cast g) /\ net g = [] /\ ~ In (tx, sh') (applied g).
+Proof. exact yes_voter_applies_refuted. Qed.
+
 (* "aborted and timed-out transactions leave every shard's data exactly as it was" -- outside the known class:
    in every reachable state, aborting tx at a shard where no OTHER transaction committed a write to one of tx's
    keys since tx's prepare (tx is not `dirty`) leaves every key of that shard's store unchanged. *)
@@ -97,5 +115,7 @@ Print Assumptions C03_commit_only_if_all_yes.
 Print Assumptions C03_apply_only_after_commit.
 Print Assumptions C03_no_split.
 Print Assumptions C03_applied_at_most_once.
+Print Assumptions C03_committing_is_decided.
+Print Assumptions C03_yes_voter_applies_refuted.
 Print Assumptions C03_abort_leaves_data.
 Print Assumptions C03_abort_leaves_data_refuted.
